@@ -3,7 +3,7 @@
    shows (value, error, truncation warning) and leaves a state that represents the file afterwards.
    No axioms. *)
 From Coq Require Import ZArith List Bool Lia.
-Require Import Rig.Model.Base Rig.Model.MemIO Rig.Spec.MemIO Rig.Proofs.MemIO.
+Require Import Rig.Generated.GenMemIO Rig.Model.Base Rig.Model.MemIO Rig.Spec.MemIO Rig.Proofs.MemIO.
 Import ListNotations.
 Open Scope Z_scope.
 
@@ -133,7 +133,7 @@ Lemma view_is_dead : forall base v w fr, view_is base v w -> dead fr v = (w_clos
 Proof. intros base v w fr (_ & _ & _ & Hc). unfold dead. rewrite Hc. reflexivity. Qed.
 
 Lemma view_is_len : forall base v w, view_is base v w -> vlen v = wlen w.
-Proof. intros base v w (Hs & He & _ & _). unfold vlen, wlen. lia. Qed.
+Proof. intros base v w (Hs & He & _ & _). unfold vlen, gen_len, wlen. lia. Qed.
 
 Lemma view_is_set_off : forall base v w p, view_is base v w -> view_is base (set_off v p) (set_pos w p).
 Proof. intros base v w p (Hs & He & Ho & Hc). unfold view_is, set_off, set_pos. cbn. repeat split; assumption. Qed.
@@ -155,7 +155,7 @@ Proof.
   { unfold read_req. rewrite Hlen, Ho. reflexivity. }
   rewrite Hreq, Hlen, Ho in *.
   set (k := transfer (w_pos w) (if n <? 0 then wlen w - w_pos w else n) (wlen w)) in *.
-  assert (Haddr : address v = base + (w_lo w + w_pos w)) by (unfold address; lia).
+  assert (Haddr : address v = base + (w_lo w + w_pos w)) by (unfold address, gen_address; lia).
   split; [subst v1; apply view_is_set_off; exact Hvw|].
   split; [|split; [exact Hcalls|rewrite Hcalls; destruct (0 <? k); exact Hag]].
   split; [|exact Hw]. cbn [fst]. rewrite Hres. cbn [result_is value_is].
@@ -183,7 +183,7 @@ Proof.
   destruct (write_transfers _ _ _ _ Hr) as (Hres & Hv' & Hw & Hcalls). cbv zeta in *.
   rewrite Hlen, Ho in *.
   set (k := transfer (w_pos w) (zlen bs) (wlen w)) in *.
-  assert (Haddr : address v = base + (w_lo w + w_pos w)) by (unfold address; lia).
+  assert (Haddr : address v = base + (w_lo w + w_pos w)) by (unfold address, gen_address; lia).
   assert (Hfit : 0 < k -> 0 <= w_lo w + w_pos w /\
                           w_lo w + w_pos w + zlen (firstn (Z.to_nat k) bs) <= zlen d).
   { intros Hk. destruct (transfer_bounds _ _ _ Hk) as (Hp0 & Hpk). fold k in Hpk.
@@ -249,9 +249,9 @@ Proof.
           cbn [wstep]; rewrite <- Hdead; reflexivity. }
       rewrite Hw. symmetry in Hstep.
       apply (Hquiet w (Failed 0) (Failed 0) v Hvw eq_refl eq_refl eq_refl Hstep). }
-    unfold seek in Hstep.
+    unfold seek, gen_seek in Hstep.
     destruct (wh =? 0); [|destruct (wh =? 1); [|destruct (wh =? 2)]];
-      cbn [wstep]; rewrite <- Hdead; symmetry in Hstep.
+      cbn [wstep]; rewrite <- Hdead; cbn in Hstep; symmetry in Hstep.
     + apply (Hquiet (set_pos w n) (Ok VNone) (Ok VNone) (set_off v n)
                (view_is_set_off _ _ _ _ Hvw) eq_refl eq_refl I Hstep).
     + rewrite <- Ho.
@@ -275,7 +275,7 @@ Proof.
     eexists _, None, d, _. split; [reflexivity|].
     split; [try subst v'; apply view_is_set_off; exact Hvw|].
     split; [exact Hok|]. split; [reflexivity|]. split; [exact I|].
-    assert (Haddr : address v = base + (w_lo w + w_pos w)) by (unfold address; lia).
+    assert (Haddr : address v = base + (w_lo w + w_pos w)) by (unfold address, gen_address; lia).
     split.
     + split; [|exact Hw]. cbn [fst]. rewrite Hres. cbn [result_is value_is].
       rewrite Haddr. f_equal.
@@ -294,7 +294,7 @@ Proof.
     destruct (write_transfers _ _ _ _ Hr) as (Hres & Hv' & Hw & Hcalls). cbv zeta in *.
     rewrite Hlen, Ho in *.
     set (k := transfer (w_pos w) (zlen bs) (wlen w)) in *.
-    assert (Haddr : address v = base + (w_lo w + w_pos w)) by (unfold address; lia).
+    assert (Haddr : address v = base + (w_lo w + w_pos w)) by (unfold address, gen_address; lia).
     assert (Hk_nonneg : 0 <= k) by (unfold k, transfer; zcases; lia).
     assert (Hfit : 0 < k -> 0 <= w_lo w + w_pos w /\
                             w_lo w + w_pos w + zlen (firstn (Z.to_nat k) bs) <= zlen d).
@@ -338,8 +338,10 @@ Proof.
     split.
     + split; [exact Hnv|]. unfold win_ok in *. cbn [w_lo w_hi]. lia.
     + split; [|exact Hag]. split; [|reflexivity]. cbn [fst o_res ok result_is value_is w_lo w_hi].
-      pose proof Hcs as Hcs'. pose proof Hce as Hce'.
-      unfold slice_view, new_view in Hcs', Hce'. cbn [v_start v_end] in Hcs', Hce'. split; lia.
+      split.
+      * change (v_start (slice_view v a b) = base + (w_lo w + clip_start (wlen w) a)). lia.
+      * change (v_end (slice_view v a b)
+                = base + (w_lo w + Z.max (clip_start (wlen w) a) (clip_stop (wlen w) b))). lia.
   - (* tell *)
     cbn [wstep]. rewrite <- Hdead. symmetry in Hstep.
     destruct (dead fr v) eqn:Ed.
@@ -353,7 +355,7 @@ Proof.
     destruct (dead fr v) eqn:Ed.
     + apply (Hquiet w (Failed 0) (Failed 0) v Hvw eq_refl eq_refl eq_refl Hstep).
     + apply (Hquiet w (Ok (VAddr (address v))) (Ok (VAddr (w_lo w + w_pos w))) v Hvw eq_refl eq_refl);
-        [|exact Hstep]. cbn [result_is value_is]. unfold address. lia.
+        [|exact Hstep]. cbn [result_is value_is]. unfold address, gen_address. lia.
   - (* flush *)
     cbn [wstep]. rewrite <- Hdead. symmetry in Hstep.
     destruct (dead fr v) eqn:Ed.
@@ -524,7 +526,8 @@ Proof.
   cbn [st_views st_freed st_mem a_wins a_freed a_data].
   assert (Hz : zlen (mem_read m s (Z.max s e - s)) = Z.max s e - s) by (apply mem_read_length; lia).
   repeat split.
-  - constructor; [|constructor]. unfold view_is, new_view. cbn. rewrite Hz. repeat split; lia.
+  - constructor; [|constructor]. unfold view_is, new_view, gen_init_end.
+    cbn [v_start v_end v_off v_closed w_lo w_hi w_pos w_closed]. rewrite Hz. repeat split; lia.
   - apply mem_read_agree. rewrite Hz. reflexivity.
   - constructor; [|constructor]. unfold win_ok. cbn [w_lo w_hi]. rewrite Hz. lia.
 Qed.
